@@ -79,7 +79,12 @@ pub fn from_hex(h: &str) -> BlsScalar {
 impl Ctx {
     pub fn new(seed: u64) -> Self {
         #[cfg(feature = "sym")]
-        dusk_bls12_381::sym::reset(seed);
+        {
+            dusk_bls12_381::sym::reset(seed);
+            if let Some(d) = std::env::var("VERIF_FLIP_DEPTH").ok().and_then(|s| s.parse().ok()) {
+                dusk_bls12_381::sym::set_flip_depth(d);
+            }
+        }
         let env_override = std::env::var("VERIF_ENV").ok().map(|p| {
             let t = std::fs::read_to_string(&p).expect("VERIF_ENV file");
             match serde_json::from_str::<Value>(&t).expect("VERIF_ENV json") {
@@ -166,4 +171,17 @@ impl Ctx {
 #[cfg(feature = "sym")]
 pub fn path_json(p: &[dusk_bls12_381::sym::PathCond]) -> Value {
     serde_json::from_str(&dusk_bls12_381::sym::path_json(p)).unwrap()
+}
+
+
+/// put a marker into the path-condition stream (symbolic build): a forced
+/// condition `marker == marker` is not possible, so markers are logged as events
+pub fn mark(name: &str) {
+    #[cfg(feature = "sym")]
+    {
+        let (_t, path) = dusk_bls12_381::sym::end_run();
+        dusk_bls12_381::sym::log_event(format!("{{\"mark\":\"{}\",\"at\":{}}}", name, path.len()));
+    }
+    #[cfg(not(feature = "sym"))]
+    let _ = name;
 }
